@@ -694,13 +694,14 @@ func init() {
 		g.emit("tbprobe backfill 1100000")
 		g.emit("tbprobe farbit 5000")
 		g.emit("tbprobe farbit 6000")
+		// a stored tail longer than 2^31 bits (a far bit beyond Offset + 2^31): 256 MiB, about five seconds
+		g.emit("tbprobe farbit 33554500")
 		if g.thorough() {
 			g.emit("tbprobe backfill 5000")
 			g.emit("tbprobe backfill 66000")
 			g.emit("tbprobe farbit 300000")
 			// more than 2^20 complete words behind an incomplete word 0 (70 million Sets), a stored tail longer than
 			// 2^31 bits (a far bit beyond Offset + 2^31), more than 2^25 complete words dropped by one compaction
-			g.emit("tbprobe farbit 33554500")
 			g.emit("tbprobe backfill 33554500")
 			// more than 4096 complete words behind word 0, then word 0 is completed: one Set must move Offset
 			// past all of them
